@@ -359,7 +359,7 @@ func TestC19(t *testing.T) {
 	ex := c19Expand.On(col, "exhaustive over a list: delimiter quadruples (lengths 1..3, positions left empty) x arguments of a caller-registered tag that calls ExpandTagArg: plain, with one and two objects, with a filter, with a failing object. Oracle: same result as the default spelling on a default engine with the same tag. Distinct by construction", true)
 	{
 		i := 0
-		for _, d := range [][4]string{{"<<", ">>", "<%", "%>"}, {"[", "]", "^", "\\"}, {"<<<", ">>>", "[", "]"}, {"", "", "<%", "%>"}, {"<<", ">>", "", ""}, {"[[", "]]", "[%", "%]"}} {
+		for _, d := range [][4]string{{"<<", ">>", "<%", "%>"}, {"[", "]", "^", "\\"}, {"<<<", ">>>", "[", "]"}, {"", "", "<%", "%>"}, {"<<", ">>", "", ""}, {"", ">>", "", ""}, {"", "]]", "<%", "%>"}, {"<<", "", "", "%>"}, {"[[", "]]", "[%", "%]"}} {
 			for _, arg := range []string{"plain", "a(( x ))b", "(( x ))", "(( s | upcase )) and (( x | plus: 1 ))", "a (( 1 | nosuchfilter )) b"} {
 				for _, pre := range []string{"", "t\n"} {
 					i++
